@@ -22,7 +22,7 @@ type b6State struct {
 	simple  int  // 0 untouched, 1 decoder.Simple(..) called
 }
 
-func (s *b6State) Key() string   { return fmt.Sprintf("%v|%d", s.pending, s.simple) }
+func (s *b6State) Key() string  { return fmt.Sprintf("%v|%d", s.pending, s.simple) }
 func (s *b6State) Copy() PState { n := *s; return &n }
 
 func (p *Prog) ioMethod(info *types.Info, call *ast.CallExpr) (string, string) {
@@ -94,7 +94,15 @@ func ruleB6(r *Run) {
 				}
 				// codec helper on the same receiver (decodeArguments, decodeMethod): inline
 				if f := Callee(info, call); f != nil && p.InRepo(f) && depth < 3 {
-					if d := p.Decl(f); d != nil && p.PkgOfDecl(d) == pkg && strings.HasSuffix(p.FuncName(f), "Codec.decodeArguments") {
+					takesCoder := false
+					for _, a := range call.Args {
+						if t := info.TypeOf(a); t != nil {
+							if dt, _ := deref(t); dt != nil && (p.namedIO(dt, "Decoder") || p.namedIO(dt, "Encoder")) {
+								takesCoder = true // a helper that reads/writes part of the message with the same coder
+							}
+						}
+					}
+					if d := p.Decl(f); d != nil && d.Body != nil && p.PkgOfDecl(d) == pkg && (takesCoder || strings.HasSuffix(p.FuncName(f), "Codec.decodeArguments")) {
 						outs := walkBody(d.Body, st.Copy().(*b6State), depth+1)
 						var res []PState
 						seen := map[string]bool{}
